@@ -170,7 +170,7 @@ class _XX:
 
     @staticmethod
     def corpus(chk):
-        return [(n, s) for n, s in gen.corpus(id) if s and s[0].startswith("xq ")]
+        return [(n, s) for n, s in gen.corpus(id) if s and s[0].startswith(("xq ", "xe "))]
 
     @staticmethod
     def scripts(tier, seed, scale=1):
@@ -195,6 +195,14 @@ class _XX:
                             ops.append("xq read %d %d nodst" % (cnt, part))
                     for op in sorted(set(ops)):
                         out.append(("xx:%d/%d/%d:%s" % (mx, off, ln, op), [new, op, "xq peek 0", "xq read 9 1"]))
+        # mpt::encode_queue::trim (mpt++/queue.cpp) on every small ring state: finished data removed at the front,
+        # also across the wrap
+        for mx in (1, 2, 3, 4, 5, 8):
+            for off in range(0, mx + 1):
+                for ln in range(0, mx + 1):
+                    for n in range(0, ln + 2):
+                        out.append(("xe:%d/%d/%d:%d" % (mx, off, ln, n),
+                                    ["xe new %d %d %s" % (mx, off, _fill(ln)), "xe trim %d" % n, "xe trim 1", "xe trim 0"]))
         r = gen.rng(id, tier, seed, "xx-random")
         for k in range((150 if tier == "quick" else 1500) * scale):
             mx = r.choice([0, 8, 16, 64])
